@@ -8,7 +8,7 @@ from vfw import x690ref as R
 from vfw.schema import T
 
 BOUNDS = ("histories of N symbolic steps (N = 2 quick, 3 thorough), each step = (operation code, position i in [-3, 4], value x in [0, 9]) over: "
-          "SEQUENCE OF INTEGER with a declared component type - append, __setitem__ (incl. position N = append), extend, slice assignment, clear, reset, sort, reverse, "
+          "SEQUENCE OF INTEGER and SEQUENCE OF SEQUENCE (elements instantiated through the container, 3 steps) with a declared component type - append, __setitem__ (incl. position N = append), extend, slice assignment, clear, reset, sort, reverse, "
           "clone(cloneValueFlag=True), setComponentByPosition, readers; SEQUENCE {a INTEGER, b OCTET STRING OPTIONAL, c BOOLEAN DEFAULT TRUE} - set by name/position/"
           "__setitem__, clear, reset, clone, readers, unknown name / out-of-range position; CHOICE - select alternative by name/position/type, clear, reset, readers; "
           "after every step the object is compared with a list / dict / pair model and with the reference DER of the model; schema scalars: 14 operations raise the library error")
@@ -153,6 +153,82 @@ def seqof2(op0, i0, x0, op1, i1, x1, strict_range):
 
 def seqof3(op0, i0, x0, op1, i1, x1, op2, i2, x2):
     return seqof_history(3, [(op0, i0, x0), (op1, i1, x1), (op2, i2, x2)])
+
+
+# ------------------------------------------------------------------ SEQUENCE OF SEQUENCE vs list of dicts (auto-instantiated elements)
+
+SOFREC = T("SEQOF", elem=T("SEQ", comps=[("a", T("INT"), "req", None), ("b", T("INT"), "opt", None)]))
+
+
+def _sofrec_view(o):
+    out = []
+    for i in range(len(o)):
+        el = o.getComponentByPosition(i, instantiate=False)
+        d = {}
+        for j, name in enumerate(("a", "b")):
+            c = el.getComponentByPosition(j, default=None, instantiate=False)
+            if c is not None:
+                d[name] = int(c)
+        out.append(d)
+    return out
+
+
+def sofrec_history(n_steps, ops):
+    o = mk_type(SOFREC).clone()
+    o2 = mk_type(SOFREC).clone()  # a sibling container of the same type: must never be affected
+    m = None
+    for step, (op, i, x) in enumerate(ops[:n_steps]):
+        try:
+            n = len(m or [])
+            if op == 0:
+                # element addressed through the container: position n instantiates a fresh element (documented)
+                if not (0 <= i <= n):
+                    raise Skip()
+                o[i]["a"] = x
+                m = list(m or [])
+                if i == n:
+                    m.append({})
+                m[i] = dict(m[i], a=x)
+            elif op == 1:
+                if not (0 <= i <= n):
+                    raise Skip()
+                o[i]["b"] = x
+                m = list(m or [])
+                if i == n:
+                    m.append({})
+                m[i] = dict(m[i], b=x)
+            elif op == 2:
+                o.clear()
+                m = []
+            elif op == 3:
+                o.reset()
+                m = None
+            elif op == 4:
+                o = o.clone(cloneValueFlag=True)
+            elif op == 5:
+                len(o)
+                list(o)
+                if m is not None and all("a" in d for d in m):
+                    der_encoder.encode(o)
+            else:
+                raise Skip()
+        except (IndexError, KeyError, error.PyAsn1Error):
+            return "step %d: well-formed operation %d raised" % (step, op)
+        got = _sofrec_view(o)
+        if got != (m or []):
+            return "step %d: content %s, model %s" % (step, got, m or [])
+        if len(o2) != 0 or o2.isValue:
+            return "step %d: a sibling container of the same type was affected" % step
+        if m is not None and all("a" in d for d in m):
+            if not o.isValue:
+                return "step %d: isValue is False for a complete value" % step
+            if der_encoder.encode(o) != bytes(R.der(SOFREC, m)):
+                return "step %d: DER differs from the DER of the model" % step
+    return None
+
+
+def sofrec3(op0, i0, x0, op1, i1, x1, op2, i2, x2):
+    return sofrec_history(3, [(op0, i0, x0), (op1, i1, x1), (op2, i2, x2)])
 
 
 # ------------------------------------------------------------------ SEQUENCE vs dict
@@ -453,6 +529,9 @@ def _first_op_shards(nops, extra=None):
 OBLIGATIONS = [
     Obl("seqof2", seqof2, dict(_params(2, 10), strict_range=B), shards=_first_op_shards(10), budget=120, tiers=("quick", "thorough"), doc="SEQUENCE OF INTEGER vs list, every 2-step history"),
     Obl("seqof3", seqof3, _params(3, 10), shards=[{"op0": C(a), "op1": C(b)} for a in range(11) for b in range(11)], thorough_budget=300, tiers=("thorough",)),
+    Obl("sofrec3", sofrec3, dict((k, (I(0, 5) if k.startswith("op") else I(0, 2) if k.startswith("i") else I(0, 9))) for k in _params(3, 5)),
+        shards=[{"op0": C(a), "op1": C(b)} for a in range(6) for b in range(6)], budget=120,
+        doc="SEQUENCE OF SEQUENCE with elements instantiated through the container vs a list of dicts, every 3-step history"),
     Obl("rec2", rec2, _params(2, 8), shards=_first_op_shards(8), budget=120, doc="SEQUENCE with OPTIONAL/DEFAULT vs dict, every 2-step history"),
     Obl("rec3", rec3, _params(3, 8), shards=[{"op0": C(a), "op1": C(b)} for a in range(9) for b in range(9)], thorough_budget=300, tiers=("thorough",)),
     Obl("ch2", ch2, _params(2, 7), shards=_first_op_shards(7), budget=120, doc="CHOICE vs (name, value) pair, every 2-step history"),
